@@ -221,3 +221,6 @@ func (c07) Run(plan interface{}, schedSeed uint64, replay []simrt.Choice, lenien
 	v.Sample = map[string]interface{}{"entry": p.Entry, "k": p.K, "of": len(e.Bytes), "read_size": p.ReadSize}
 	return v, out
 }
+
+// RequiredProbes: a batch in which one of these never fired explored nothing of that kind (exit 2, not a pass).
+func (c07) RequiredProbes() []string { return []string{"fault:deliver-late"} }
